@@ -127,6 +127,6 @@ pub fn run(ctx: &mut Ctx) {
             }
         }
     };
-    ctx.cases("general", ctx.n(400, 20000), 0, |case| body(case, false));
-    ctx.cases("forest", ctx.n(400, 20000), 0, |case| body(case, true));
+    ctx.cases("general", ctx.n(2000, 40000), 0, |case| body(case, false));
+    ctx.cases("forest", ctx.n(2000, 40000), 0, |case| body(case, true));
 }
